@@ -77,6 +77,17 @@ def h_accessors(F, R):
                 char_ids.add(pt["subs"][0]["pat"]["var"]["id"])      # `for (char_idx, c) in value.chars().enumerate()`
     byte_ids = {vid for vid, rs in counters.items() if vid not in char_ids}
     for x in walk_all(vb):
+        # `for (.., (byte_idx, c)) in value.char_indices()..`: the byte offset comes from the iterator itself
+        if x.get("k") == "For" and any(y.get("k") == "Call" and y["fn"].get("name") == "char_indices" for y in walk_all(x["iter"])):
+            def first_of_pairs(pt, out):
+                if pt.get("k") == "Leaf" and pt.get("subs"):
+                    subs = [q["pat"] for q in pt["subs"]]
+                    if len(subs) == 2 and subs[0].get("k") == "Binding" and subs[1].get("k") == "Binding" and "char" in (subs[1].get("ty") or ""):
+                        out.add(subs[0]["var"]["id"])
+                    for q in subs:
+                        first_of_pairs(q, out)
+            first_of_pairs(x["pat"], byte_ids)
+    for x in walk_all(vb):
         if x.get("k") == "Binary" and x["op"] in ("Lt", "Le") and strip(x["l"]).get("k") == "Var" and strip(x["l"])["var"]["id"] in char_ids:
             c = const_eval(x["r"])
             if c is not None:
@@ -158,52 +169,59 @@ def _spec_sub_byte(o):
     return b | (rh << O["retain_handling_shift"])
 
 
-def _topic_loop(F, fid):
-    b = nbody(F, fid)
-    for n in walk_all(b):
-        if n.get("k") == "While" and "remaining_len" in pp(n["cond"]):
-            return n
-    raise AnchorLost("%s: topic loop" % fid)
-
-
-def _decode_sub_byte(F, loop, byte):
-    """Evaluate one iteration of the v5 SUBSCRIBE topic loop for an options byte."""
+def _decode_sub_byte(F, fid, byte):
+    """Evaluate the SUBSCRIBE decoder as a whole on a frame holding exactly one topic (3-byte filter) whose options /
+    requested-QoS byte is `byte`: independent of how the topic loop and the remaining-length bookkeeping are spelled."""
     pushed = []
+    fam = fid.split("::")[0]
 
     def hook(d, res, args, node, env):
         r = res or d
+        name = node["fn"].get("name")
         if r == "common::utils::read_u8":
             return ok(byte)
+        if r == "common::utils::read_u16":
+            return ok(7)
         if r == "common::utils::read_string":
             return ok(Sym("topic"))
+        if r.endswith("Properties::decode_async"):
+            return ok(Sym("PROPS"))
+        if name == "encode_len" and len(args) == 1:
+            return 1
         if r.endswith("TryFrom<alloc::string::String>>::try_from"):
             return ok(Sym("filter"))
-        if node["fn"].get("name") == "checked_sub":
-            return some(Sym("rest"))
-        if node["fn"].get("name") == "push":
+        if r.endswith("TryFrom<u16>>::try_from"):
+            return ok(Sym("PID"))
+        if name == "push":
             pushed.append(args[1])
             return UNIT
-        if node["fn"].get("name") == "len":
-            return Sym("len")
+        if name == "len" and len(args) == 1 and isinstance(args[0], Sym):
+            return 3
+        if name in ("new", "with_capacity") and "vec" in d.lower():
+            return Sym("VEC")
+        if name in ("deref", "as_ref", "as_str") and len(args) == 1 and (res or d) not in F.fns:
+            return args[0]
         return None
 
     def cond(what, node):
         if what[0] == "try-ok":
             return True
         return None
-    pe = PE(F, call_hook=hook, cond_hook=cond)
+    # pid (2) [+ empty property block (1)] + filter (2 + 3) + the byte under test (1)
+    rl = 2 + (1 if fam == "v5" else 0) + 5 + 1
+    arg = Adt("v5::packet::Header", "Header", {"typ": Adt("v5::packet::PacketType", "Subscribe"), "remaining_len": rl, "dup": False,
+                                               "retain": False, "qos": Adt("common::types::QoS", "Level1")}) if fam == "v5" else rl
+    pe = PE(F, call_hook=hook, cond_hook=cond, fuel=400)
     try:
-        pe.ev(loop["body"], {})
-    except _Ret as r:
-        k = result_kind(r.v)
-        if k[0] == "err" and isinstance(k[1], Adt):
-            return ("err", k[1].variant, [k[1].fields[x] for x in sorted(k[1].fields)])
-        return ("return", repr(r.v))
+        r = pe.call_fn(fid, [Sym("READER"), arg])
     except Undecided as e:
-        raise AnchorLost("v5 SUBSCRIBE topic loop cannot be evaluated for options byte %#04x: %s" % (byte, e))
-    if len(pushed) == 1 and isinstance(pushed[0], Tup) and len(pushed[0].items) == 2:
+        raise AnchorLost("%s cannot be evaluated for the options byte %#04x: %s" % (fid, byte, e))
+    k = result_kind(r)
+    if k[0] == "err" and isinstance(k[1], Adt):
+        return ("err", k[1].variant, [k[1].fields[x] for x in sorted(k[1].fields)])
+    if k[0] == "ok" and len(pushed) == 1 and isinstance(pushed[0], Tup) and len(pushed[0].items) == 2:
         return ("ok", pushed[0].items[1])
-    return ("other", repr(pushed))
+    return ("other", repr(r)[:120] + " pushed " + repr(pushed)[:120])
 
 
 def t_bits_subopts(F, R):
@@ -221,7 +239,7 @@ def t_bits_subopts(F, R):
         enc[vkey(o)] = (b, o)
         R.check(b == _spec_sub_byte(o), "T-bits", "subscription-options/encode/%s" % _spec_sub_byte(o),
                 "SubscriptionOptions %r is written as %r; specification layout gives %#04x" % (o, b, _spec_sub_byte(o)), where=fid)
-    loop = _topic_loop(F, "v5::subscribe::Subscribe::decode_async")
+    loop = "v5::subscribe::Subscribe::decode_async"
     by_byte = {b: o for b, o in enc.values() if isinstance(b, int)}
     bad = []
     O = S.SUB_OPTIONS
@@ -240,7 +258,7 @@ def t_bits_subopts(F, R):
                 len(bad), "; ".join("%#04x -> %s (expected %s)" % b for b in bad[:3])), where="v5::subscribe::Subscribe::decode_async")
     R.sample({"rule": "T-bits", "subscription_options_values": len(enc), "option_bytes_evaluated": 256, "mismatches": len(bad)})
     # v3 SUBSCRIBE: requested-QoS byte
-    loop3 = _topic_loop(F, "v3::subscribe::Subscribe::decode_async")
+    loop3 = "v3::subscribe::Subscribe::decode_async"
     bad = []
     for byte in range(256):
         r = _decode_sub_byte(F, loop3, byte)
